@@ -32,7 +32,8 @@ Deviations == { "AckAfterHandlerStart",  \* the handler goroutine is started bef
                 "StopNoBroadcast",       \* stop() does not wake blocked readers
                 "CloseWrongEntry",       \* close-stream removes another stream's entry
                 "DupDeliver",            \* a message is queued twice
-                "CrossDeliver" }         \* a message is queued on another stream
+                "CrossDeliver",          \* a message is queued on another stream
+                "WriteFailDropsStream" } \* a failed write of a stream message removes the stream from the connection's table, so the sweep misses it
 ASSUME Dev \subseteq Deviations
 DevChoice(d) == IF d \in Dev THEN BOOLEAN ELSE {FALSE}
 
@@ -153,7 +154,8 @@ CloseSend(s) ==
 CliSweep(dNoSweep) ==
     /\ creader = "reading" /\ cut /\ s2c = <<>>
     /\ creader' = "swept"
-    /\ cstop' = IF dNoSweep THEN cstop ELSE [s \in Streams |-> cstop[s] \/ cph[s] # "none"]
+    /\ cstop' = IF dNoSweep THEN cstop
+                ELSE [s \in Streams |-> cstop[s] \/ (cph[s] # "none" /\ ~("WriteFailDropsStream" \in Dev /\ nbad[s] > 0))]
     /\ cph' = [s \in Streams |-> IF cph[s] \in {"opening", "stopping", "closing"} THEN "closed" ELSE cph[s]]   \* their calls fail with ErrShutdown
     /\ UNCHANGED <<flipped, cq, cgot, cblocked, cshut, nsent, nbad, c2s, s2c, cut, sreg, sacked, hst, sstop, sq, sgot, sblocked, sshut, npush, cackp, steardown>>
 
